@@ -24,6 +24,12 @@ EXPECTED = {
     "t_numpy_dtype": "153*u", "t_or_default": "49*u", "t_precedence": "416*u", "t_shadow_and_scope": "37*u", "t_string_names": "22124435*u",
     "t_truthiness": "7981*u", "t_views": "1100*u", "t_views_containers": "33*u", "t_views_iter_flat": "67*u", "t_views_rows_cols": "208*u",
     "t_ravel_contiguity": "1132*u", "t_descriptor_calls": "1532*u", "t_numpy_bool": "1101101*u", "t_match_class_patterns": "1230*u", "t_contextmanager": "15105*u",
+    # feat4.py: idioms a moderniser reaches for (NamedTuple methods, frozen dataclasses and their equality, Enum iteration / lookup, ABCs with
+    # MRO and __getattr__, exception classes of the project with attributes, functools / itertools / operator pipelines, cached_property and
+    # __setattr__, positional-only / keyword-only forwarding, dict | and str.removeprefix, numpy comparisons / masks / where / sort)
+    "t_abc_mro_getattr": "111127060*u", "t_args_forwarding": "22263631*u", "t_cached_property_setattr": "330010816*u", "t_dataclass_frozen": "3101109*u",
+    "t_dict_str_misc": "5148312729*u", "t_enum_features": "1131147*u", "t_exceptions": "1732371*u", "t_functools_itertools": "3251434*u",
+    "t_namedtuple_methods": "12125573*u", "t_numpy_more": "323288383/2*u",
     "t_star_kwargs": "21*u", "t_lazy_interleave": "51*u", "t_string_ops": "50*u", "t_try_finally": "111*u", "t_walrus_fstring": "3 + 11*u", "t_while_forelse": "13*u",
 }
 
@@ -33,7 +39,7 @@ sys.path.insert(0, %r)
 from yadsa import model, symeval as S, algebra as A
 from yadsa.selftest.features import EXPECTED
 proj = model.project()
-mods = [proj.module("yadism.feat"), proj.module("yadism.feat3")]
+mods = [proj.module("yadism.feat"), proj.module("yadism.feat3"), proj.module("yadism.feat4")]
 u = A.sym("u", True)
 bad = 0
 for name, exp in sorted(EXPECTED.items()):
